@@ -547,7 +547,7 @@ def thorough_cases():
     together in one directory (sibling axis = none / pack / symlink / hardlink); 3 each name-like
     sibling alone x name x prior x mode x threads x kind x the outcomes that reach the file writer,
     side-file option rotated; 4 --no-fork, write-path axes in full and the rest rotated."""
-    staged = [(1, c) for c in rotated_cases(["fork"], per_core=2)]
+    staged = [(1, c) for c in rotated_cases(FORKS, per_core=1)]
     staged += [(2, make_case(*t)) for t in itertools.product(
         NAMES, SIBS_PACKED, SIDES, PRIORS, MODES, THREADS, OUTCOMES, KINDS)]
     i = 0
@@ -570,19 +570,17 @@ def rotated_cases(forks, per_core):
     meets `per_core` different (side, outcome) pairs per name."""
     so = list(itertools.product(SIDES, OUTCOMES))   # 20 pairs
     cases = []
-    i = 0
-    for core in itertools.product(SIBS_PACKED, PRIORS, MODES, THREADS, KINDS, forks):
+    for ci, core in enumerate(itertools.product(SIBS_PACKED, PRIORS, MODES, THREADS, KINDS, forks)):
         sib, prior, mode, th, kind, fork = core
         for ni, name in enumerate(NAMES):
             for k in range(per_core):
-                side, outcome = so[(i * 7 + ni * 3 + k * 11) % len(so)]
+                side, outcome = so[(ci * 7 + ni * 3 + k * 11) % len(so)]
                 cases.append(make_case(name, sib, side, prior, mode, th, outcome, kind, fork))
-            i += 1
     return cases
 
 
 def quick_cases():
-    cases = rotated_cases(["fork"], per_core=2)
+    cases = rotated_cases(FORKS, per_core=1)
     for c in cases:
         c["stage"] = 1
     return dedup_cases([c for c in cases if applicable(c)])
@@ -923,7 +921,7 @@ def main():
         cap = 540 if chk.thorough else 150
         capped = False
         results = []
-        for r in vlib.pmap_unordered(run_case, [(c, base) for c in cases], chunksize=8):
+        for r in vlib.pmap_unordered(run_case, [(c, base) for c in cases], chunksize=4):
             results.append(r)
             if time.time() - t0 > cap:
                 capped = True
@@ -960,7 +958,7 @@ def main():
         # ---- part B
         t1 = time.time()
         pspecs = pair_specs(chk.thorough)
-        presults = vlib.pmap(run_pair, [(s, base) for s in pspecs], procs=8, chunksize=1)
+        presults = vlib.pmap(run_pair, [(s, base) for s in pspecs], procs=12, chunksize=1)
         orders = {}
         for r in presults:
             if r["machinery"]:
@@ -977,7 +975,7 @@ def main():
         # ---- part C
         t2 = time.time()
         especs = exit_race_specs(chk.thorough)
-        eresults = vlib.pmap(run_exit_race, [(s, base) for s in especs], procs=8, chunksize=1)
+        eresults = vlib.pmap(run_exit_race, [(s, base) for s in especs], procs=16, chunksize=1)
         held = 0
         for r in eresults:
             if r["spec"]["how"] == "hold-remove" and r["reached"]:
@@ -1069,8 +1067,8 @@ def main():
                      "rotated (stage 4)" if chk.thorough else
                      "siblings packed into one directory (none / all five name-like siblings "
                      "together / symlink / hardlink); full product of sibling x prior x mode x "
-                     "threads x kind x name, with 2 rotated (side, outcome) pairs per member "
-                     "instead of all 20; fork mode only; part B: shared objects with both old "
+                     "threads x kind x fork/--no-fork x name, with 1 rotated (side, outcome) "
+                     "pair per member instead of all 20; part B: shared objects with both old "
                      "outputs present only; part C: 2 names"),
     }
     chk.assumptions = [
